@@ -376,12 +376,14 @@ def obligations(tier):
             for m in ([0] if typ in ("state", "gate") else tiers(tier, [2], [2, 3])):
                 if tier == "quick" and typ == "povm" and s == "T1":
                     continue
+                if typ in ("gate", "mprocess") and s != "Q1":
+                    continue        # 9x9 / 16x16 Choi matrices behind element-wise truncation: the spectral stub cannot be matched within budget (outside, DESIGN.md 7.6)
                 for vn in (names[-1:] if tier == "quick" else names):
                     out += specs("C04.ineq", [{"typ": typ, "sys": s, "m": m, "vname": vn}], ob_ineq, 5)
                 if dd <= 4:
                     out += specs("C04.ineq.flag", [{"typ": typ, "sys": s, "m": m}], ob_ineq_flag, 5)
     # the variational inequality is a genuinely non-linear query (seconds to minutes in nlsat): thorough tier only
-    out += specs("C04.ineq.vi", [{"sys": "Q1", "vname": v} for v in tiers(tier, [], ["id", "rot", "cplx"])], ob_ineq_vi, 8)
+    out += specs("C04.ineq.vi", [{"sys": "Q1", "vname": v} for v in tiers(tier, [], ["id"])], ob_ineq_vi, 8)
     return out
 
 
